@@ -638,6 +638,25 @@ def rule_frame_attrs(tree: Tree) -> RuleResult:
     hc = tree.func(QS, "QuicSession.handle_crypto_frame")
     ok = ok and any(isinstance(c, ast.Call) and src(c) == "self.output_buffer.append(frame)" for c in body_walk(hc.node))
     r.ob(ok, Finding("A3f", f"{QS}:QuicSession.handle_frame:crypto-vn", "CRYPTO frames feed the TLS parser and are kept for metadata export; version-negotiation pseudo frames are kept", hf.module.line(hf.node)))
+    # what the version-negotiation pseudo frame carries reaches `bytearray.extend` in the builder (only with -a): it must be bytes — a slice of the datagram —
+    # or empty; a non-empty slice of struct.unpack's result is a tuple of bytes objects and raises TypeError there, which drops the whole connection
+    r.instances += 1
+    dis = tree.func("quic.quic_dissector", "extract_quic_packet")
+    kws = [k.value for c in body_walk(dis.node) if isinstance(c, ast.Call) and dotted(c.func) == "LongQuicPacket" for k in c.keywords if k.arg == "supported_version"]
+    okv = len(kws) == 1
+    if okv:
+        e = kws[0]
+        base = dotted(e.value) if isinstance(e, ast.Subscript) else None
+        if base in ("datagram_data", f"{dis.params[0]}.tls_data"):
+            okv = isinstance(e.slice, ast.Slice)
+        elif base == "header_parts" and isinstance(e.slice, ast.Slice):
+            lo, hi = try_fold(e.slice.lower) if e.slice.lower is not None else None, try_fold(e.slice.upper) if e.slice.upper is not None else None
+            okv = isinstance(lo, int) and isinstance(hi, int) and lo < 0 and hi < 0 and hi <= lo  # provably empty
+        else:
+            okv = False
+    r.ob(okv, Finding("A3f", "quic.quic_dissector:extract_quic_packet:vn-payload-type",
+                      f"the Version Negotiation payload `{src(kws[0], 60) if kws else None}` must be a bytes slice of the datagram (or empty): a tuple of struct fields makes "
+                      f"QUICOutputbuilder.build raise TypeError with -a and the connection disappears from the export", dis.module.line(dis.node)))
     # attributes of the carrying packet that the builder reads exist for every packet kind (a frame's packet may be a Version Negotiation or Retry packet)
     read = sorted({n.attr for n in body_walk(b.node) if isinstance(n, ast.Attribute) and isinstance(n.ctx, ast.Load) and (dotted(n.value) or "").endswith("src_packet")})
     if not read:
